@@ -26,19 +26,7 @@
     context-count clause.
 -/
 import JdProofs.LcsProofs
-import JdProofs.EqualsList
-import JdProofs.NoPanic
-import JdProofs.StrictPatch
-import JdProofs.SetPatch
-import JdProofs.YamlProofs
-import JdProofs.MergeProofs
-import JdProofs.EqualsSet
-import JdProofs.DiffEmpty
 import JdProofs.DiffPatchList
-import JdProofs.Common
-import JdProofs.PatchRender
-import JdProofs.NativeRoundTrip
-import JdProofs.CliProofs
 
 namespace Jd.Min
 open Jd Jd.DPL
